@@ -72,7 +72,22 @@ def gen_op(rng: random.Random) -> list:
         return ["mp", rng.choice(["setitem", "setitem", "delitem", "pop", "clear", "update", "setdefault"]), rng.choice(["charset", "boundary", "x"]), rng.choice(["utf-8", "a b", "x;y", "latin-1"])]
     if k == "sc":
         return ["sc", rng.choice(SCALARS), rng.choice(["set", "set", "set", "del"]), rng.randrange(6)]
-    return ["hdr", rng.choice(["Vary", "Allow", "Cache-Control", "WWW-Authenticate", "Content-Security-Policy", "Content-Range", "Content-Type", "Content-Language"]), rng.choice(["set", "set", "del"]), rng.randrange(4)]
+    # last element: the application keeps using the view it already holds (a stale view) instead of re-reading the property
+    return ["hdr", rng.choice(["Vary", "Allow", "Cache-Control", "WWW-Authenticate", "Content-Security-Policy", "Content-Range", "Content-Type", "Content-Language"]), rng.choice(["set", "set", "del"]), rng.randrange(4), rng.random() < 0.4]
+
+
+def gen_ops(rng: random.Random, n: int) -> list:
+    ops: list = []
+    for _ in range(n):
+        op = gen_op(rng)
+        ops.append(op)
+        if op[0] == "hdr" and op[4] and rng.random() < 0.6:
+            # write through the held view right after the foreign edit - often the very assignment made before
+            kind = {"Cache-Control": "cc", "Content-Security-Policy": "csp", "Vary": "hs", "Allow": "hs", "Content-Language": "hs"}.get(op[1])
+            earlier = [o for o in ops if o[0] == kind and (kind != "hs" or HS_PROPS.get(o[1]) == op[1])]
+            if earlier:
+                ops.append(list(rng.choice(earlier)))
+    return ops
 
 
 RAW_TEXT = {
@@ -97,7 +112,7 @@ class ResponseViews(Scenario):
     rule = "non-trivial = at least two view mutations; distinct = the operation history"
 
     def generate(self, rng: random.Random, tier: str) -> dict:
-        return {"ops": [gen_op(rng) for _ in range(rng.randrange(1, 14 if tier == "quick" else 40))], "wrapper": rng.random() < 0.3}
+        return {"ops": gen_ops(rng, rng.randrange(1, 14 if tier == "quick" else 40)), "wrapper": rng.random() < 0.3}
 
     def execute(self, case: dict) -> Outcome:
         import werkzeug.sansio.response as sr
@@ -126,6 +141,7 @@ class ResponseViews(Scenario):
         views: dict = {}          # property name -> live view
         normalised: dict = {}     # property name -> header text was last written by the view itself
         hs_models: dict = {}      # HeaderSet property -> HeaderSetModel
+        stale: dict = {}          # property name -> the header was edited directly and the held view has not written since
         nmut = 0
 
         def vio(cls, msg):
@@ -135,6 +151,7 @@ class ResponseViews(Scenario):
         def fetch(prop):
             views[prop] = getattr(resp, prop)
             normalised[prop] = False
+            stale[prop] = False
             if prop in HS_PROPS:
                 raw = resp.headers.get(HS_PROPS[prop])
                 hs_models[prop] = HeaderSetModel(http.parse_list_header(raw) if raw else [])
@@ -154,6 +171,8 @@ class ResponseViews(Scenario):
             for prop, v in list(views.items()):
                 if out.violations:
                     return
+                if stale.get(prop):
+                    continue  # nothing is promised about a held view between a foreign edit and its next write
                 text = resp.headers.get(HNAME[prop])
                 fresh = getattr(resp, prop)
                 if prop in HS_PROPS:
@@ -205,6 +224,8 @@ class ResponseViews(Scenario):
                     _, prop, what, a, b, idx = op[:6]
                     a, b = str(a), str(b)
                     idx = idx if isinstance(idx, int) else 0
+                    if stale.get(prop) and what != "add":
+                        fetch(prop)
                     v = view(prop)
                     m = hs_models[prop]
                     n = len(m.l)
@@ -259,10 +280,18 @@ class ResponseViews(Scenario):
                         fetch(prop)
                     if changed:
                         normalised[prop] = True
+                        stale[prop] = False
+                        out.probe("write_through_stale_view") if what == "add" and len(m.l) > 1 else None
                         nmut += 1
                 elif kind == "cc" and len(op) >= 5:
                     _, what, attr, vi, key = op[:5]
                     val = CC_VALUES[vi % len(CC_VALUES)] if isinstance(vi, int) else None
+                    # operations that always write the header back, whatever the view held before
+                    writes = what == "setitem" or (what == "set_attr" and attr in CC_BOOL + CC_INT + CC_STR and (bool(val) if attr in CC_BOOL else (val is not None and val is not False)))
+                    was_stale = bool(stale.get("cache_control"))
+                    if was_stale and not writes:
+                        fetch("cache_control")
+                        was_stale = False
                     v = view("cache_control")
                     before = dict(v)
                     if what == "set_attr" and attr in CC_BOOL + CC_INT + CC_STR:
@@ -298,9 +327,12 @@ class ResponseViews(Scenario):
                         v.update({str(key): "1", "public": None})
                     elif what == "setdefault":
                         v.setdefault(str(key), "7")
-                    if dict(v) != before or what == "clear":
+                    if dict(v) != before or what == "clear" or was_stale:
                         normalised["cache_control"] = True
                         nmut += 1
+                    if was_stale:
+                        stale["cache_control"] = False
+                        out.probe("write_through_stale_view")
                 elif kind == "wa" and len(op) >= 5:
                     _, what, key, val, typ = op[:5]
                     key, val, typ = str(key), str(val), str(typ)
@@ -365,6 +397,11 @@ class ResponseViews(Scenario):
                 elif kind == "csp" and len(op) >= 5 and op[1] in ("content_security_policy", "content_security_policy_report_only"):
                     _, prop, what, attr, vi = op[:5]
                     val = CSP_VALUES[vi % len(CSP_VALUES)] if isinstance(vi, int) else None
+                    writes = what == "setitem" or (what == "set_attr" and attr in CSP_ATTRS and val is not None)
+                    was_stale = bool(stale.get(prop))
+                    if was_stale and not writes:
+                        fetch(prop)
+                        was_stale = False
                     v = view(prop)
                     before = dict(v)
                     if what == "set_attr" and attr in CSP_ATTRS:
@@ -393,9 +430,12 @@ class ResponseViews(Scenario):
                         if resp.headers.get(HNAME[prop]) is not None:
                             vio(f"{prop}/assign-none-keeps-header", "")
                         fetch(prop)
-                    if not what.startswith("assign") and (dict(v) != before or what == "clear"):
+                    if not what.startswith("assign") and (dict(v) != before or what == "clear" or was_stale):
                         normalised[prop] = True
                         nmut += 1
+                    if was_stale:
+                        stale[prop] = False
+                        out.probe("write_through_stale_view")
                 elif kind == "cr" and len(op) >= 6:
                     _, what, start, stop, length, units = op[:6]
                     ok = lambda x: x is None or (isinstance(x, int) and 0 <= x < 10**6)  # noqa: E731
@@ -471,7 +511,10 @@ class ResponseViews(Scenario):
                     else:
                         resp.headers[name] = RAW_TEXT[name][ti % 4 if isinstance(ti, int) else 0]
                     if name in PROP_OF and PROP_OF[name] in views:
-                        fetch(PROP_OF[name])
+                        if len(op) > 4 and op[4] and PROP_OF[name] in ("cache_control", "content_security_policy", *HS_PROPS):
+                            stale[PROP_OF[name]] = True
+                        else:
+                            fetch(PROP_OF[name])
                 else:
                     continue
             except Exception as e:  # noqa: BLE001
